@@ -9,9 +9,14 @@
   make us rotate twice without our sending in between): not proved; measured by the `sched` oracle.
   Rejected (forged, garbage) messages do not touch the key-management context at all
   (Proofs.ConvData `c06_data_frame`). Resend queue / injections: Proofs.ConvLife; Go oracle in `sched`.
+  Re-keying (repaired code): `akeHasFinished` carries the MAC keys of the replaced session into the new
+  reveal queue (Props.C09); `reveal_carried_keys` / `_outcome` / `_ready`: when the exchange completes and
+  nothing is retransmitted, an empty data message carrying the whole queue goes out at once and the
+  queue is empty afterwards — it does not grow with every further exchange of a silent user.
 -/
 
 import Proofs.Keys
+import Proofs.Fixes2
 namespace Otr.C19
 open Otr
 
@@ -46,5 +51,50 @@ theorem c19_queue_bound {K} {m : Nat} {k0 k : Keys} (hwf : WF k0) (h0 : k0.oldMA
 
 theorem wf_postAKE (a b : DhPair) (y : Nat) : WF (Keys.postAKE a b y) := by
   first | exact Otr.wf_postAKE | exact @Otr.wf_postAKE | (apply Otr.wf_postAKE <;> assumption) | (intros; apply Otr.wf_postAKE <;> assumption)
+
+/-- every outcome of generating a data message: on success it carries the whole reveal queue and the queue is empty -/
+theorem genDataMsgWithFlag_outcome (K : Crypto) (m : Bytes) (flag : Nat) (tlvs : List Tlv) (s : MState)
+    (r : Except Err (DataMsg × Bytes)) (s' : MState)
+    (h : runM (genDataMsgWithFlag K m flag tlvs) s = .ok (r, s')) :
+    (∃ e, r = .error e ∧ s'.conv.mayRetransmit = s.conv.mayRetransmit ∧ s'.conv.resendMsgs = s.conv.resendMsgs ∧
+      s'.conv.retransmitting = s.conv.retransmitting ∧ s'.conv.keys.oldMACKeys = s.conv.keys.oldMACKeys) ∨
+    (∃ dm x, r = .ok (dm, x) ∧ s.conv.msgState = .encrypted ∧
+      dm.oldMACKeys = s.conv.keys.oldMACKeys ∧ s'.conv.keys.oldMACKeys = [] ∧
+      s'.conv.mayRetransmit = .no ∧ s'.conv.retransmitting = s.conv.retransmitting ∧
+      s'.conv.resendMsgs = if m.length > 0 ∧ s.conv.retransmitting = false then [m] else s.conv.resendMsgs) := by
+  first | exact Otr.genDataMsgWithFlag_outcome | exact @Otr.genDataMsgWithFlag_outcome | (apply Otr.genDataMsgWithFlag_outcome <;> assumption) | (intros; apply Otr.genDataMsgWithFlag_outcome <;> assumption)
+
+/-- repaired code: MAC keys carried over a re-keying are revealed at once -/
+theorem reveal_carried_keys (K : Crypto) (before : AuthState) (hb : before ≠ .none)
+    (s s1 s2 s' : MState) (dm : DataMsg) (x m : Bytes)
+    (h1 : runM (maybeRetransmit K) s = .ok (.ok [], s1))
+    (h2 : s1.conv.keys.oldMACKeys ≠ [])
+    (h3 : runM (genDataMsgWithFlag K [] messageFlagIgnoreUnreadable []) s1 = .ok (.ok (dm, x), s2))
+    (h4 : runM (wrapMessageHeader msgTypeData dm.serialize) s2 = .ok (.ok m, s')) :
+    runM (retransmitAfterCompletedExchange K before .none none) s = .ok (.ok [m], s') ∧
+    dm.flag = messageFlagIgnoreUnreadable ∧
+    dm.oldMACKeys = s1.conv.keys.oldMACKeys ∧ s'.conv.keys.oldMACKeys = [] := by
+  first | exact Otr.reveal_carried_keys | exact @Otr.reveal_carried_keys | (apply Otr.reveal_carried_keys <;> assumption) | (intros; apply Otr.reveal_carried_keys <;> assumption)
+
+/-- the same read off the outcome: anything returned means the queue is empty -/
+theorem reveal_carried_keys_outcome (K : Crypto) (before : AuthState) (hb : before ≠ .none)
+    (s s1 s' : MState) (msgs : List Bytes)
+    (h1 : runM (maybeRetransmit K) s = .ok (.ok [], s1))
+    (h2 : s1.conv.keys.oldMACKeys ≠ [])
+    (h : runM (retransmitAfterCompletedExchange K before .none none) s = .ok (.ok msgs, s')) :
+    (msgs ≠ [] → s'.conv.keys.oldMACKeys = []) ∧
+    (msgs = [] → s'.conv.keys.oldMACKeys = s1.conv.keys.oldMACKeys) := by
+  first | exact Otr.reveal_carried_keys_outcome | exact @Otr.reveal_carried_keys_outcome | (apply Otr.reveal_carried_keys_outcome <;> assumption) | (intros; apply Otr.reveal_carried_keys_outcome <;> assumption)
+
+/-- exact, from a ready state: one data message with the whole queue, queue empty afterwards -/
+theorem reveal_carried_keys_ready (K : Crypto) (before : AuthState) (hb : before ≠ .none) (s : MState)
+    (h : SendReady K s.conv)
+    (hidle : ¬ (s.conv.resendMsgs.length > 0 ∧ s.conv.mayRetransmit ≠ .no))
+    (hq : s.conv.keys.oldMACKeys ≠ []) :
+    runM (retransmitAfterCompletedExchange K before .none none) s =
+      .ok (.ok [rawDataWith K messageFlagIgnoreUnreadable s.conv (cipherOf K s.conv.keys (plainBytes [] []))],
+        { s with conv := s.conv.afterData K [] }) ∧
+    (s.conv.afterData K []).keys.oldMACKeys = [] := by
+  first | exact Otr.reveal_carried_keys_ready | exact @Otr.reveal_carried_keys_ready | (apply Otr.reveal_carried_keys_ready <;> assumption) | (intros; apply Otr.reveal_carried_keys_ready <;> assumption)
 
 end Otr.C19
